@@ -337,7 +337,9 @@ func runC15(p *an.Prog, r *an.Run, tier string) {
 		if tier == "thorough" {
 			for name := range boundsExceptions {
 				if used[name] == 0 {
-					r.Note("bounds exception for %s matched nothing on this tree", name)
+					r.Fail("bounds", "stale-exception:"+name, token.NoPos, "the named bounds exception for %s matches no unproven bounds check on this tree: the table entry is stale and must be removed", name)
+				} else {
+					r.Ok("bounds", "exception-audit:"+name, token.NoPos, "exception still matches a site")
 				}
 			}
 		}
